@@ -4,6 +4,7 @@ package c18
 import (
 	"context"
 	"encoding/json"
+	"errors"
 	"fmt"
 	"sync"
 	"testing"
@@ -30,7 +31,7 @@ import (
 )
 
 type Ev struct {
-	Kind  string `json:"kind"` // msg | peerping | emptyack | pong | tick
+	Kind  string `json:"kind"` // msg | peerping | emptyack | pong | tick | failtick
 	GapMs int    `json:"gapMs"`
 	Back  int    `json:"back,omitempty"` // pong: 0 = the current ping, 1 = the one before, ...
 }
@@ -55,6 +56,8 @@ type subject struct {
 	pings  func() int             // pings put on the wire so far
 	closed func() bool
 	stop   func()
+	// failNext makes the next ping the monitor tries to send fail in the write (nothing reaches the wire)
+	failNext func(on bool)
 }
 
 type histRec struct {
@@ -63,6 +66,7 @@ type histRec struct {
 	pingsSoFar int // pings on the wire after the event
 	closedNow  bool
 	pongIdx    int
+	failed     bool // a tick whose ping, if one was attempted, failed in the write
 }
 
 func Exec(t *testing.T, sc Scenario, r *evid.Run) *evid.Failure {
@@ -86,13 +90,18 @@ func Exec(t *testing.T, sc Scenario, r *evid.Run) *evid.Failure {
 				if !isClosed() {
 					m.CheckInactivity(time.Now(), fc)
 				}
-			}, recv: m.Notify, pong: func(int) bool { return false }, pings: func() int { return 0 }, closed: isClosed, stop: func() {}}
+			}, recv: m.Notify, pong: func(int) bool { return false }, pings: func() int { return 0 }, closed: isClosed, stop: func() {}, failNext: func(bool) {}}
 		case "raw-ka":
 			fc := &fakeConn{context.Background()}
 			var pongs []func()
 			cancelled := map[int]bool{}
 			var m *inactivity.Monitor[*fakeConn]
+			failPing := false
 			ka := inactivity.NewKeepAlive(uint32(sc.MaxRetries), func(*fakeConn) { markClosed() }, func(cc *fakeConn, receivePong func()) (func(), error) {
+				if failPing {
+					failPing = false
+					return nil, errors.New("write failed")
+				}
 				idx := len(pongs)
 				pongs = append(pongs, receivePong)
 				return func() { cancelled[idx] = true }, nil
@@ -112,12 +121,13 @@ func Exec(t *testing.T, sc Scenario, r *evid.Run) *evid.Failure {
 					pongs[i]()
 				}
 				return true
-			}, pings: func() int { return len(pongs) }, closed: isClosed, stop: func() {}}
+			}, pings: func() int { return len(pongs) }, closed: isClosed, stop: func() {}, failNext: func(on bool) { failPing = on }}
 		default:
 			var tk endpoints.Ticker
 			var w wire.Wire
 			var pingsSeen []refcodec.Msg
 			var closeConn func()
+			var failNext func(on bool)
 			var done <-chan struct{}
 			nextMID := 50000
 			scan := func() {
@@ -146,6 +156,7 @@ func Exec(t *testing.T, sc Scenario, r *evid.Run) *evid.Failure {
 				w = wire.UDP(link)
 				closeConn = func() { _ = cc.Close() }
 				done = cc.Done()
+				failNext = func(on bool) { link.A.FailNextWrites(map[bool]int{true: 1, false: 0}[on]) }
 			} else {
 				link := memnet.NewStreamLink(memnet.StreamCfg{})
 				onInactive := func(cc *tcpClient.Conn) { markClosed(); _ = cc.Close() }
@@ -164,6 +175,7 @@ func Exec(t *testing.T, sc Scenario, r *evid.Run) *evid.Failure {
 				w = wire.TCP(link)
 				closeConn = func() { _ = cc.Close(); _ = link.B.Close() }
 				done = cc.Done()
+				failNext = func(on bool) { link.A.FailNextWrites(map[bool]int{true: 1, false: 0}[on]) }
 			}
 			_ = done
 			s = subject{
@@ -205,9 +217,10 @@ func Exec(t *testing.T, sc Scenario, r *evid.Run) *evid.Failure {
 					scan()
 					return true
 				},
-				pings:  func() int { scan(); return len(pingsSeen) },
-				closed: isClosed,
-				stop:   func() { closeConn() },
+				pings:    func() int { scan(); return len(pingsSeen) },
+				closed:   isClosed,
+				stop:     func() { closeConn() },
+				failNext: func(on bool) { failNext(on) },
 			}
 			bubble.Wait()
 			scan()
@@ -223,6 +236,11 @@ func Exec(t *testing.T, sc Scenario, r *evid.Run) *evid.Failure {
 			switch e.Kind {
 			case "tick":
 				s.tick()
+			case "failtick": // a tick whose ping (if it sends one) fails in the write
+				s.failNext(true)
+				s.tick()
+				s.failNext(false)
+				rec.kind, rec.failed = "tick", true
 			case "msg", "peerping", "emptyack":
 				recvKind = e.Kind
 				s.recv()
@@ -253,6 +271,7 @@ func Exec(t *testing.T, sc Scenario, r *evid.Run) *evid.Failure {
 	// ---- oracle: replay the history on the model ----------------------------------------------------
 	lastRecv := created // the monitor starts with "activity now"
 	pingsAtReset := 0
+	failedAttempts := 0 // pings since the last reset that were attempted but failed in the write
 	closedSeen := false
 	silentTicksOnly := true
 	lastMsg := created
@@ -272,6 +291,7 @@ func Exec(t *testing.T, sc Scenario, r *evid.Run) *evid.Failure {
 			}
 			lastRecv = h.t
 			pingsAtReset = h.pingsSoFar
+			failedAttempts = 0
 			silentTicksOnly = false
 			lastMsg = h.t
 		case "tick":
@@ -287,7 +307,7 @@ func Exec(t *testing.T, sc Scenario, r *evid.Run) *evid.Failure {
 				}
 			} else if h.closedNow {
 				// pings that went unanswered since the last reset (the closing tick itself sends none)
-				unanswered := h.pingsSoFar - pingsAtReset
+				unanswered := h.pingsSoFar - pingsAtReset + failedAttempts
 				if !inactive {
 					return evid.Failf("monitor/ka-closed-while-active", sc, "tick %d at %v closed the connection although a message was received at %v, less than a period (%v) ago", i, h.t, lastRecv, period)
 				}
@@ -295,6 +315,9 @@ func Exec(t *testing.T, sc Scenario, r *evid.Run) *evid.Failure {
 					return evid.Failf("monitor/ka-closed-early", sc, "tick %d at %v closed the connection after only %d unanswered ping(s) since the last received message/pong at %v; maxRetries is %d", i, h.t, unanswered, lastRecv, sc.MaxRetries)
 				}
 			}
+		}
+		if h.kind == "tick" && h.failed && inactive && isKA && !h.closedNow {
+			failedAttempts++ // an inactive keep-alive tick attempts a ping; this one failed in the write
 		}
 		prevT = h.t
 		if h.closedNow {
@@ -329,7 +352,7 @@ func gen(t *rapid.T) Scenario {
 	n := rapid.IntRange(1, 16).Draw(t, "nev")
 	silent := rapid.IntRange(0, 4).Draw(t, "silent") == 0
 	for i := 0; i < n; i++ {
-		e := Ev{Kind: rapid.SampledFrom([]string{"tick", "tick", "tick", "tick", "tick", "msg", "peerping", "emptyack", "pong", "pong"}).Draw(t, "kind"), GapMs: rapid.SampledFrom(gaps).Draw(t, "gap")}
+		e := Ev{Kind: rapid.SampledFrom([]string{"tick", "tick", "tick", "tick", "tick", "failtick", "msg", "peerping", "emptyack", "pong", "pong"}).Draw(t, "kind"), GapMs: rapid.SampledFrom(gaps).Draw(t, "gap")}
 		if silent {
 			e.Kind = "tick"
 			e.GapMs = rapid.SampledFrom([]int{p / 3, p / 2, p - 1}).Draw(t, "sgap")
@@ -384,7 +407,7 @@ func TestCheck(t *testing.T) {
 		return f
 	})
 	r.Main(evid.Meta{
-		Rule:        "event lists over {message received, pong for the current or a superseded ping, housekeeping tick} with virtual gaps around the period (1 ms, p/3, p/2, p-1, p+1, 1.5p, 2p+1, 5p+3; never exactly on it) against the bare inactivity.Monitor / KeepAlive and against datagram and stream connections configured with WithInactivityMonitor / WithKeepAlive (maxRetries 0-4) in a synctest bubble, the scripted peer answering pings on the wire; oracle: inactivity monitor closes at a tick iff that tick is later than last receipt + period; keep-alive may close only at an inactive tick and only if at least maxRetries pings were put on the wire unanswered since the last received message/pong; a received message never closes; a totally silent peer with ticks every <= period is closed within (maxRetries+2) periods. Non-trivial = traffic or a pong falls between two ticks of one period, or a pong for a superseded ping; distinct by scenario. servers: a tcp / dtls server on an in-memory listener configured once with WithInactivityMonitor or WithKeepAlive (maxRetries 1-3), 2-4 scripted peers that stay silent, answer every ping, or send a request every half period, ticks every half period; oracle per connection: a silent peer is closed (keep-alive: not before maxRetries pings went out on its own wire; inactivity: not before one period), a talking or ping-answering peer is never closed - whatever the other connections of the server do; non-trivial = peers of at least two kinds. " + udpsrv.Rule,
+		Rule:        "event lists over {message received, pong for the current or a superseded ping, housekeeping tick, housekeeping tick whose ping fails in the write} with virtual gaps around the period (1 ms, p/3, p/2, p-1, p+1, 1.5p, 2p+1, 5p+3; never exactly on it) against the bare inactivity.Monitor / KeepAlive and against datagram and stream connections configured with WithInactivityMonitor / WithKeepAlive (maxRetries 0-4) in a synctest bubble, the scripted peer answering pings on the wire; oracle: inactivity monitor closes at a tick iff that tick is later than last receipt + period; keep-alive may close only at an inactive tick and only if at least maxRetries pings were attempted (put on the wire unanswered, or failed in the write) since the last received message/pong; a received message never closes; a totally silent peer with ticks every <= period is closed within (maxRetries+2) periods. Non-trivial = traffic or a pong falls between two ticks of one period, or a pong for a superseded ping; distinct by scenario. servers: a tcp / dtls server on an in-memory listener configured once with WithInactivityMonitor or WithKeepAlive (maxRetries 1-3), 2-4 scripted peers that stay silent, answer every ping, or send a request every half period, ticks every half period; oracle per connection: a silent peer is closed (keep-alive: not before maxRetries pings went out on its own wire; inactivity: not before one period), a talking or ping-answering peer is never closed - whatever the other connections of the server do; non-trivial = peers of at least two kinds. " + udpsrv.Rule,
 		Assumptions: []string{"the literal off-by-one of 'more than the configured number of pings' is not asserted: closing after maxRetries unanswered pings plus one further inactive tick is accepted (DESIGN.md 3/C18)", "a pong for a superseded ping counts as a received message"},
 		Floor:       500,
 	}, eng, serversEngine(t, r), udpsrv.Engine(r, []string{"keepalive"}, 6, 150))
